@@ -672,6 +672,11 @@ class _PairsClassifierMixin(BaseMetricLearner, ClassifierMixin):
       cum_tn_inverted = stable_cumsum(y_ordered[::-1] == -1)
       cum_tn = np.concatenate([[0.], cum_tn_inverted])[::-1]
       cum_accuracy = (cum_tp + cum_tn) / n_samples
+      # a threshold cannot separate pairs that have the same score: discard
+      # the cut-offs that fall between two tied scores
+      tied_with_next = np.concatenate(
+          [[False], scores_sorted[1:-1] == scores_sorted[2:], [False]])
+      cum_accuracy[tied_with_next] = -1
       imax = np.argmax(cum_accuracy)
       # we set the threshold to the lowest accepted score
       # note: we are working with negative distances but we want the threshold
